@@ -83,6 +83,13 @@ Theorem C03_responders_only_read_the_update :
 Proof. vm_compute. reflexivity. Qed.
 Print Assumptions C03_responders_only_read_the_update.
 
+(* +FLAGS, -FLAGS and FLAGS updates all decide "came from a different mailbox" by comparing mailboxes: a session of the
+   SAME mailbox as the STORE takes over the change of \Deleted (set as well as taken back), so that what it marks \Deleted
+   stays what the mailbox marks \Deleted (expunge_view_ok) *)
+Theorem C03_flag_updates_compare_mailboxes : newfetch_ok newfetch_calls = true.
+Proof. vm_compute. reflexivity. Qed.
+Print Assumptions C03_flag_updates_compare_mailboxes.
+
 (* State.close drops the pending responders; the snapshot is only replaced by Select / Examine after a close guarded by
    `snap != nil`, and by close itself *)
 Theorem C03_close_drops_pending_news : close_resets_res = true /\ setsnap_ok setsnap_calls = true.
